@@ -55,7 +55,7 @@ func cmdUnit(args []string) {
 	tier := fs.String("tier", "quick", "quick|thorough")
 	fs.Parse(args)
 	t0 := time.Now()
-	e, err := Load([]string{*pkg}, "/verif/ghost", nil)
+	e, err := Load(strings.Split(*pkg, ","), "/verif/ghost", nil)
 	if err != nil {
 		fmt.Println("LOAD ERROR:", err)
 		os.Exit(3)
